@@ -23,7 +23,7 @@ func init() {
 var (
 	c02Names  = []string{"/web", "/web-1", "/web-10", "/db", "/db.primary", "", "/w", "/cache_1", "/Web"}
 	c02Images = []string{"nginx", "nginx:1.25", "postgres", "redis", "ngin"}
-	c02States = []string{"running", "exited", "paused"}
+	c02States = []string{"running", "exited", "paused", "created", "restarting", "removing", "dead"}
 	c02Keys   = []string{"env", "com.docker.compose.service", "app-name", "a/b", "tier", "org.label-schema.name", "Env", "x y", "größe", "t٣", "container.id", "container-name", "container_state"}
 	c02Vals   = []string{"prod", "production", "pro", "", "dev", "a.b", "a|b", "x y", "(1)", "PROD", " prod", "prod ", " ", "dev\t"}
 )
